@@ -142,14 +142,57 @@ static void handler(vh::Reader& r, vh::Out& o)
 		o.w("|");
 		o.f((s + b) >= 0 ? PMF_Poisson(s + b, n) : std::nan(""));
 	}
-	else if(op == "binned")
+	else if(op == "lik0")
+	{
+		// the two-argument calls: expected_background is the default argument of the header
+		double s = r.num();
+		long n	 = r.integer();
+		o.f(Log_Likelihood_Poisson(s, n));
+		o.f(Likelihood_Poisson(s, n));
+		o.w("|");
+		o.f(s >= 0 ? PMF_Poisson(s, n) : std::nan(""));
+	}
+	else if(op == "likseq")
+	{
+		// several evaluations in a row in one process (a scan over one argument with the others held fixed, repeated
+		// points, alternating points): every answer must be the one a fresh process gives
+		long m = r.integer();
+		std::vector<double> ss, bs;
+		std::vector<long> ns;
+		for(long k = 0; k < m; k++)
+		{
+			ss.push_back(r.num());
+			ns.push_back(r.integer());
+			bs.push_back(r.num());
+		}
+		for(long k = 0; k < m; k++)
+		{
+			o.f(Log_Likelihood_Poisson(ss[k], ns[k], bs[k]));
+			o.f(Likelihood_Poisson(ss[k], ns[k], bs[k]));
+		}
+		o.w("|");
+		for(long k = 0; k < m; k++)
+			o.f((ss[k] + bs[k]) >= 0 ? PMF_Poisson(ss[k] + bs[k], ns[k]) : std::nan(""));
+	}
+	else if(op == "binned" || op == "binned0")
 	{
 		std::vector<double> s = r.list();
 		std::vector<long> nl  = r.ilist();
-		std::vector<double> b = r.list();
+		std::vector<double> b;
+		if(op == "binned")
+			b = r.list();
 		std::vector<unsigned long> n(nl.begin(), nl.end());
-		o.f(Log_Likelihood_Poisson_Binned(s, n, b));
-		o.f(Likelihood_Poisson_Binned(s, n, b));
+		if(op == "binned")
+		{
+			o.f(Log_Likelihood_Poisson_Binned(s, n, b));
+			o.f(Likelihood_Poisson_Binned(s, n, b));
+		}
+		else
+		{
+			// the overloads without a background argument (default argument of the header)
+			o.f(Log_Likelihood_Poisson_Binned(s, n));
+			o.f(Likelihood_Poisson_Binned(s, n));
+		}
 		o.w("|");
 		for(size_t k = 0; k < s.size(); k++)
 		{
@@ -158,7 +201,7 @@ static void handler(vh::Reader& r, vh::Out& o)
 			o.f(Likelihood_Poisson(s[k], n[k], bk));
 		}
 	}
-	else if(op == "kde")
+	else if(op == "kde" || op == "kde0")
 	{
 		long n = r.integer();
 		std::vector<DataPoint> d;
@@ -167,8 +210,9 @@ static void handler(vh::Reader& r, vh::Out& o)
 			double v = r.num(), w = r.num();
 			d.push_back(DataPoint(v, w));
 		}
-		double xMin = r.num(), xMax = r.num(), bw = r.num();
-		Interpolation kde = Perform_KDE(d, xMin, xMax, bw);
+		double xMin = r.num(), xMax = r.num(), bw = op == "kde" ? r.num() : 0.0;
+		// kde0: the call without a bandwidth argument (default argument of the header)
+		Interpolation kde = op == "kde" ? Perform_KDE(d, xMin, xMax, bw) : Perform_KDE(d, xMin, xMax);
 		int points		  = 150;
 		double dx		  = (xMax - xMin) / (points - 1);
 		std::vector<double> xs;
